@@ -43,7 +43,7 @@ NSHARD = {"quick": 16, "thorough": 64}
 def bounds(tier):
     if tier == "quick":
         return {"max_blocks": 2, "rt_nodes2_links": 2, "rt_nodes3_links": 1}
-    return {"max_blocks": 3, "rt_nodes2_links": 3, "rt_nodes3_links": 2}
+    return {"max_blocks": 3, "rt_nodes2_links": 4, "rt_nodes3_links": 3}
 
 
 def plan(tier, seed):
